@@ -106,6 +106,14 @@ class VBound(V):
 
 
 @dataclass
+class VObj(V):
+    """Immutable struct with named fields (argparse namespace, self of a read-only method, ...)."""
+
+    fields: dict
+    label: str = ""
+
+
+@dataclass
 class VOpaque(V):
     """A value the engine carries around but cannot inspect (uninterpreted)."""
 
